@@ -7,7 +7,8 @@ def FltOK (t : Txt) : Prop :=
 
 mutual
 def J.WF : J → Prop
-  | .null => True | .bool _ => True | .int _ => True
+  | .null => True | .bool _ => True
+  | .int z => z.natAbs < 10 ^ maxStrDigits        -- CPython's int <-> str conversion limit: larger integers cannot be serialized or loaded
   | .flt t => FltOK t
   | .str s => StrOK s
   | .arr xs => WFs xs
@@ -90,7 +91,7 @@ theorem serRaw_starts (lvl : Nat) (v : J) (hv : v.WF) : Starts (serRaw lvl v) :=
   | null => exact ⟨110, _, rfl, by decide, by decide, by decide⟩
   | bool b => cases b <;> exact ⟨_, _, rfl, by decide, by decide, by decide⟩
   | int z =>
-    obtain ⟨h1, h2⟩ := parseNumTok_serInt z
+    obtain ⟨h1, h2⟩ := parseNumTok_serInt z hv
     simp only [serRaw]
     refine starts_of_numtok _ h2 ?_
     intro e; rw [e, parseNumTok_nil] at h1; cases h1
